@@ -23,6 +23,14 @@ import (
 	"time"
 )
 
+// repoDir is the tree under verification: /repo, or $VERIF_REPO (a snapshot of it for background sweeps).
+var repoDir = func() string {
+	if d := os.Getenv("VERIF_REPO"); d != "" {
+		return d
+	}
+	return "/repo"
+}()
+
 // verif is the root of the verification tree: the directory check.sh lives in (its working directory).
 var verif = func() string {
 	if d, err := os.Getwd(); err == nil {
@@ -121,14 +129,7 @@ func main() {
 			budget = os.Args[i]
 		}
 	}
-	if budget == "" {
-		// wall budget per exploration (one scenario): a level that does not finish stops the scenario
-		// at the last completed preemption bound; reported as exhaustive:false, never as a failure
-		budget = "3m"
-		if tier == "thorough" {
-			budget = "8m"
-		}
-	}
+	budgetGiven := budget != ""
 	seed, _ := strconv.Atoi(os.Getenv("VERIF_SEED"))
 	start := time.Now()
 
@@ -151,7 +152,7 @@ func main() {
 	// the module cache cannot be overlaid, so the module is copied to the scratch directory and the
 	// build uses a generated go.mod that replaces it with the copy
 	hdir := filepath.Join(verif, "harness")
-	if b, err := os.ReadFile("/repo/go.sum"); err == nil {
+	if b, err := os.ReadFile(filepath.Join(repoDir, "go.sum")); err == nil {
 		os.WriteFile(filepath.Join(hdir, "go.sum"), b, 0o644)
 	}
 	tickDirs := ""
@@ -166,6 +167,7 @@ func main() {
 				tickDirs = filepath.Join(pm, "parser") + "," + filepath.Join(pm, "utils")
 				gm, _ := os.ReadFile(filepath.Join(hdir, "go.mod"))
 				g := strings.Replace(string(gm), "replace verifrt => ../rt", "replace verifrt => "+filepath.Join(verif, "rt"), 1)
+				g = strings.Replace(g, "replace github.com/zishang520/engine.io/v2 => /repo", "replace github.com/zishang520/engine.io/v2 => "+repoDir, 1)
 				g += "\nreplace github.com/zishang520/engine.io-go-parser => " + pm + "\n"
 				modfile = filepath.Join(scratch, "go.mod")
 				os.WriteFile(modfile, []byte(g), 0o644)
@@ -175,7 +177,7 @@ func main() {
 			}
 		}
 	}
-	if out, err := run(verif, goEnv(), instr, "-repo", "/repo", "-out", scratch, "-tick", tickDirs); err != nil {
+	if out, err := run(verif, goEnv(), instr, "-repo", repoDir, "-out", scratch, "-tick", tickDirs); err != nil {
 		fmt.Print(out)
 		fmt.Printf("INTERNAL-ERROR instrumenter failed on the current /repo tree\n")
 		cleanupAndExit(2)
@@ -241,6 +243,26 @@ func main() {
 	par := runtime.NumCPU()
 	if par > 16 {
 		par = 16
+	}
+	if !budgetGiven {
+		// wall budget per exploration (one scenario), scaled so that the whole check stays within about
+		// 6 minutes (quick) / 30 minutes (thorough): a level that does not finish stops the scenario at the
+		// last completed preemption bound; reported as exhaustive:false, never as a failure
+		total := 6 * time.Minute
+		if tier == "thorough" {
+			total = 30 * time.Minute
+		}
+		per := total * time.Duration(par) / time.Duration(len(jobs))
+		if per < 20*time.Second {
+			per = 20 * time.Second
+		}
+		if per > 8*time.Minute {
+			per = 8 * time.Minute
+		}
+		if tier != "thorough" && per > 3*time.Minute {
+			per = 3 * time.Minute
+		}
+		budget = per.String()
 	}
 	watchdog := 20 * time.Minute
 	if tier == "thorough" {
